@@ -271,12 +271,18 @@ def run(fx, rep):
         fl = sorted({d['ty'] for d in b.locals if re.search(r'\bf(32|64)\b', d['ty'])})
         rep.check(not fl, 'R8', 'integer-only/%s' % short, b.loc(), 'no float-typed value',
                   '%s holds a binary float (%s): 8.2 and 1.005 have no exact f64, so duration(\'8.2s\') != duration(\'8200ms\')' % (fn, ', '.join(fl)[:160]))
-        for bi, j, st in b.stmts():
-            if st['k'] == 'Assign' and st['rv']['k'] == 'Cast' and st['rv']['kind'] == 'IntToInt' and st['rv']['op']['k'] != 'Const':
-                fr, to = st['rv']['from'], st['rv']['to']
-                if lossy_int_cast(fr, to):
-                    rep.violation('R8', 'lossy-int-cast/%s/%s->%s' % (short, fr, to), F.loc_of(st['span']),
-                                  '`as %s` on a %s in the term conversion wraps instead of reporting an out-of-range duration (use try_from)' % (to, fr))
+        # a wrapping `as` whose result is handed straight to a TimeDelta constructor
+        cpv = F.Prov(b, transparent={})
+        for bi, t in b.calls():
+            if not re.match(CTOR, F.norm_callee(t) or ''):
+                continue
+            for a in t['args']:
+                for x in cpv.of_operand(a):
+                    if x[0] == 'cast' and x[1].startswith('IntToInt:'):
+                        fr, to = x[1].split(':', 1)[1].split('->')
+                        if lossy_int_cast(fr, to) and x[2][0] != 'const':
+                            rep.violation('R8', 'lossy-int-cast/%s/%s->%s' % (short, fr, to), F.loc_of(t['span']),
+                                          'the count handed to %s is produced by `as %s` from a %s: an out-of-range term wraps instead of being reported (use try_from)' % (F.norm_callee(t).rsplit('::', 1)[-1], to, fr))
     # ---------------- R9
     td = [b for b in dbodies if not F.norm_path(b.path).startswith(DUR + 'format_')]
     npow = 0
